@@ -202,7 +202,7 @@ def term(e, ctx):
         return term(e["e"], ctx)
     if k == "try":
         inner = term(e["e"], ctx)
-        if ctx.eval_fn and inner[0] == "call" and inner[1] == ctx.eval_fn:
+        if ctx.eval_fn and inner[0] == "call" and (inner[1] == ctx.eval_fn or (isinstance(ctx.eval_fn, tuple) and inner[1] in ctx.eval_fn)):
             return ("ev",) + inner[2:]
         return ("try", inner)
     if k == "call":
@@ -529,6 +529,16 @@ def normalise(t):
         return ("errmsg",)
     if h == "call":
         name = t[1]
+        if isinstance(name, str) and len(t) == 3:
+            # iteration over a collection, however spelt:  v.into_iter() / v.iter() / (&v).into_iter() / v.iter().cloned()
+            if name in ("[T]::iter", "Vec::iter") or re.match(r"^<&?(mut )?(Vec<.*>|\[.*\]) as iter::IntoIterator>::into_iter$", name):
+                return ("call", "iter", t[2])
+            if re.search(r"iter::Iterator>::(cloned|copied)$", name) or name in ("Iterator::cloned", "Iterator::copied", "iter::Iterator::cloned", "iter::Iterator::copied"):
+                return t[2]
+            if name in ("[T]::len",):
+                return ("call", "Vec::len", t[2])
+            if name in ("[T]::is_empty",):
+                return ("call", "Vec::is_empty", t[2])
         if name in ("Option::ok_or_else", "Option::ok_or") and len(t) >= 3:
             return ("lift", t[2])
         if name in ("Result::map_err",) and len(t) >= 3:
@@ -585,6 +595,8 @@ def normalise(t):
                     return ("lift", t[1])
     if h == "try" and _is(t[1], "lift"):
         return ("try", t[1])
+    if h == "try" and _is(t[1], "Ok") and len(t[1]) == 2:
+        return t[1][1]
     if h == "Ok" and len(t) == 2 and _is(t[1], "try") and _is(t[1][1], "lift"):
         return t[1][1]
     if h == "Ok" and len(t) == 2 and _is(t[1], "if") and len(t[1]) == 4:
